@@ -121,7 +121,13 @@ func (or *Orchestrator) Service() *Service {
 					wg.Add(1)
 					go func(ss *Service) {
 						defer wg.Done()
-						ec.Add(ss.waitFor(ctx))
+						// wait for the service itself, not for
+						// the orchestrator's context: waitFor(ctx)
+						// returns as soon as ctx is canceled, before
+						// the service (which may shut down in
+						// response to the same cancellation) has
+						// returned and recorded its errors.
+						ec.Add(ss.Wait())
 					}(s)
 					continue
 				}
